@@ -72,6 +72,13 @@ def spaces(tier, seed):
     sp.append(Product("date-skipword-number", {"lang": LANGS, "d": range(4), "w": range(18), "n": ["5", "10:00", "12 2014"], "sel": ["lang"],
                                                "adl": [True], "base": [True]},
                       note="a date-ish token, then each skip word / 'in' / 'ago' word of the language, then a number"))
+    sp.append(Product("chained-reference-dates", {"lang": LANGS, "t1": ["5/3/2010 10:00 EST", "31/12/2014 23:59 +0300", "2010-03-05 10:00 PM CDT", "5/3/2010"],
+                                                  "t2": ["12/04/11", "3/7/09", "{month}", "{weekday}", "10:30", "{rel}"], "join": [". ", " "],
+                                                  "sel": ["lang"], "adl": [True], "base": [False, True]},
+                      note="an earlier hit (with or without a timezone) becomes the reference date of a later partial hit when no RELATIVE_BASE is given"))
+    sp.append(Product("typographic-apostrophes", {"lang": LANGS, "aw": range(12), "apo": ["'", "\u2019", "\u02bc", "\u2032"], "ctx": [0, 1],
+                                                  "sel": ["lang"], "adl": [True], "base": [True]},
+                      note="every vocabulary word of the language that contains an apostrophe, spelled with each apostrophe look-alike"))
     sp.append(Product("glued-punctuation", {"lang": LANGS, "i": range(6), "j": range(6), "glue": [",", "'", ".", "-", ":", "/", ";", ")(", "\u2019", ",,"],
                                             "sel": ["lang"], "adl": [True], "base": [True]},
                       note="two tokens joined by a punctuation mark without spaces"))
@@ -88,6 +95,24 @@ def text_of(sub, c):
             return None
         p = rel[c["r"]]
         return [p, p + ".", fill[0] + (joiner or "") + p if joiner else fill[0] + p, p + joiner + "12"][c["ctx"]]
+    if sub == "chained-reference-dates":
+        t2 = c["t2"].replace("{month}", core8[0]).replace("{weekday}", core8[1] if len(core8) > 1 else "12").replace("{rel}", rel[0] if rel else "12")
+        return c["t1"] + c["join"] + t2
+    if sub == "typographic-apostrophes":
+        info = vocab.locale_info(c["lang"])
+        ws = []
+        for k in vocab.MEANING_KEYS:
+            ws += [w for w in (info.get(k) or []) if any(a in w for a in "'\u2019\u02bc")]
+        for vals in (info.get("relative-type") or {}).values():
+            ws += [w for w in vals if any(a in w for a in "'\u2019\u02bc")]
+        if c["aw"] >= len(ws):
+            return None
+        w = ws[c["aw"]]
+        for a in "\u2019\u02bc":
+            w = w.replace(a, "'")
+        w = w.replace("'", c["apo"])
+        j = joiner or " "
+        return w + j + "10:30" if c["ctx"] == 0 else fill[0] + j + w + j + "2014"
     if sub == "date-skipword-number":
         info = vocab.locale_info(c["lang"])
         words = [w for w in (info.get("skip") or []) if w.strip() and any(ch.isalpha() for ch in w)][:10] + (info.get("in") or [])[:3] + (info.get("ago") or [])[:3] + list(fill)   # fill: e.g. ru 'с', which search_dates special-cases
